@@ -242,7 +242,8 @@ def cases():
                 lit = p.strftime('%Y-%m-%dT%H:%M:%S')
                 out.append(('date and time("%s@%s") - date and time("%sZ")' % (lit, zn, lit), sign + txt))
         # zone identifiers spelled with digits, '+' or '-' (Etc/GMT+5, America/Port-au-Prince, EST5EDT, ...): accepted like any other
-        odd = sorted(zn for zn in zoneinfo.available_timezones() if any(ch.isdigit() or ch in '+-' for ch in zn) and not zn.startswith(('posix', 'right')))
+        # ... and identifiers of three components (America/Argentina/Buenos_Aires, America/Indiana/Knox, ...) or without an area (UTC, Japan, Poland)
+        odd = sorted(zn for zn in zoneinfo.available_timezones() if (any(ch.isdigit() or ch in '+-' for ch in zn) or zn.count('/') != 1) and not zn.startswith(('posix', 'right')) and zn not in ('localtime', 'Factory'))
         for zn in odd:
             z = zoneinfo.ZoneInfo(zn)
             for p in (datetime.datetime(2020, 1, 15, 12, 0), datetime.datetime(2020, 7, 15, 12, 0)):
